@@ -285,15 +285,21 @@ pub struct ForeignOut {
 
 pub fn encode_foreign(ops: &[FOp]) -> ForeignOut {
     let mut enc = RefChunkEnc::new();
-    // timestamps run per chunk stream (see run_serializer)
     let mut ts_by_csid: std::collections::HashMap<u32, u32> = std::collections::HashMap::new();
-    let mut ts = 0u32;
     let mut out = ForeignOut {
         stream: Vec::new(),
         expected: Vec::new(),
         fmts: Vec::new(),
         non_minimal_csid: false,
     };
+    encode_foreign_into(&mut enc, &mut ts_by_csid, ops, &mut out);
+    out
+}
+
+/// Same, continuing an existing encoder (and its per-chunk-stream running timestamps).
+pub fn encode_foreign_into(enc: &mut RefChunkEnc, ts_by_csid: &mut std::collections::HashMap<u32, u32>, ops: &[FOp], out: &mut ForeignOut) {
+    // timestamps run per chunk stream (see run_serializer)
+    let mut ts = ts_by_csid.values().copied().max().unwrap_or(0);
     for op in ops {
         match op {
             FOp::Msg(m) => {
@@ -337,5 +343,4 @@ pub fn encode_foreign(ops: &[FOp]) -> ForeignOut {
             }
         }
     }
-    out
 }
